@@ -2,11 +2,11 @@
 # usage: confirm_seeded.sh <ID> <agent_out_dir> <demo_test_name>
 # Confirms a seeded change in a scratch worktree: suite passes with it, demo fails with it and passes without.
 set -u
-ID=$1; OUT=$2; DEMO=$3
+ID=$1; OUT=$2; DEMO=$3; PKG=${4:-qbice_integration_test}; EXTRA=${5:-}
 WT=/tmp/confirm_wt
 export CARGO_TARGET_DIR=/tmp/confirm_target CARGO_NET_OFFLINE=true
-if [ ! -d $WT ]; then git -C /repo worktree add -q $WT HEAD; fi
-cd $WT && git checkout -q -- . && git clean -qfd
+if [ ! -d $WT ]; then git -C /repo worktree add -q --detach $WT HEAD; fi
+cd $WT && git checkout -q --detach $(git -C /repo rev-parse HEAD) && git checkout -q -- . && git clean -qfd
 LOG=/tmp/confirm_$ID.log; : > $LOG
 git apply $OUT/patch.diff || { echo "patch does not apply" >> $LOG; exit 1; }
 echo "== suite with change" >> $LOG
@@ -15,9 +15,9 @@ grep -E "^test .* FAILED|^test result: FAILED" /tmp/confirm_${ID}_suite.log >> $
 echo "suite_failed_tests: $(grep -E '^test .* FAILED' /tmp/confirm_${ID}_suite.log | grep -v asymmetric_diamond_projection_pattern | wc -l)" >> $LOG
 git apply $OUT/demo/demo.diff || { echo "demo does not apply" >> $LOG; exit 1; }
 echo "== demo with change" >> $LOG
-timeout 1200 cargo test --offline -p qbice_integration_test --test $DEMO > /tmp/confirm_${ID}_demo_with.log 2>&1; echo "demo_with_exit: $?" >> $LOG
+timeout 1200 cargo test --offline -p $PKG $EXTRA --test $DEMO > /tmp/confirm_${ID}_demo_with.log 2>&1; echo "demo_with_exit: $?" >> $LOG
 git apply -R $OUT/patch.diff
 echo "== demo without change" >> $LOG
-timeout 1200 cargo test --offline -p qbice_integration_test --test $DEMO > /tmp/confirm_${ID}_demo_without.log 2>&1; echo "demo_without_exit: $?" >> $LOG
+timeout 1200 cargo test --offline -p $PKG $EXTRA --test $DEMO > /tmp/confirm_${ID}_demo_without.log 2>&1; echo "demo_without_exit: $?" >> $LOG
 git checkout -q -- . && git clean -qfd
 echo done >> $LOG
